@@ -8,7 +8,7 @@ open Scrapli Scrapli.Timeout
     msg <function name>                                                                          -> hex(message)
     run <mech> <noTerminate 0|1> <closeWakes 0|1> <handler u<n>|s<name>> <timer -|n> <closed 0|1> <now> <prog…>
         -> fin=<n|inf> out=<ret|error|cancelled|timeout:hex> closed=<0|1> handler=<u<n>|s:hex> timer=<-|n> acts=<name:start:stop;…|.>
-  prog in prefix form:  ret | raise | hang | work <d> P | call <t> <name> P P
+  prog in prefix form:  ret | raise | hang | work <d> P | call <t> <name> P P | spawn P P
 -/
 
 partial def parseProg : List String → Option (Prog × List String)
@@ -24,6 +24,10 @@ partial def parseProg : List String → Option (Prog × List String)
     let (b, r) ← parseProg r
     let (k, r) ← parseProg r
     pure (.call t name b k, r)
+  | "spawn" :: r => do
+    let (b, r) ← parseProg r
+    let (k, r) ← parseProg r
+    pure (.spawn b k, r)
   | _ => none
 
 def bit (s : String) : Option Bool := if s == "1" then some true else if s == "0" then some false else none
